@@ -33,6 +33,31 @@ def _loader(case):
     val = {"int": lambda w: w, "norm": lambda w: w / W, "unnorm": lambda w: w * 0.37}[scale]
     jdd = {k: val(w) for k, w in zip(keys, case["wts"]) if w > 0 or case.get("keep_zero")}
     params = {JN.JDD: jdd, JN.MOTIF_SIZES: list(case["sizes"])}
+    pre = case.get("pre")
+    if pre:
+        # history on ONE loader object: an earlier distribution was loaded and sampled from, then the
+        # distribution was replaced (setter / in-place edit of .jdd / empirical rebuild); the sample that
+        # is judged must follow the CURRENT distribution
+        W0 = sum(pre["wts"])
+        old = {tuple(k): w / W0 for k, w in zip(pre["keys"], pre["wts"]) if w > 0}
+        if pre["how"] == "empirical":
+            obs0 = [tuple(k) for k, w in zip(pre["keys"], pre["wts"]) for _ in range(w)]
+            obs1 = [k for k, w in zip(keys, case["wts"]) for _ in range(w)]
+            ld = gcmpy.JointDegreeEmpirical({JN.JDS: obs0, JN.MOTIF_SIZES: list(case["sizes"])})
+        else:
+            ld = gcmpy.JointDegreeManual({JN.JDD: dict(old), JN.MOTIF_SIZES: list(case["sizes"])})
+        Oracle().run_seeded(pre.get("seed", 5), lambda: ld.sample_jds_from_jdd(pre.get("N", 3)))
+        if pre["how"] == "setter":
+            ld.jdd = dict(jdd)
+        elif pre["how"] == "inplace":
+            d = ld.jdd
+            for k in list(d):
+                del d[k]
+            d.update(jdd)
+        else:
+            ld.empirical_jds = obs1
+            ld.create_jdd()
+        return ld
     if case.get("via") == "entry":
         params[JN.JOINT_DEGREE_TYPE] = "manual"
         return gcmpy.JointDegreeDistribution.load_joint_degree(params)
@@ -139,12 +164,12 @@ def _key(tr, v):
 
 def run(chk):
     thorough = chk.tier == "thorough"
-    r = chk.mc("MC_Sampling", "MC_Sampling.cfg", required=["Draw", "StartRepair", "Patch", "NextTopology"])
+    r = chk.mc("MC_Sampling", "MC_Sampling.cfg", required=["Draw", "StartRepair", "Patch", "NextTopology", "NewRun"])
     chk.mc("MC_Sampling", "MC_Sampling_deviant.cfg", expect_violation="C05_NeverRemoves")
     fam = mc_family()
-    chk.extra["mc_family"] = {"python": len(fam) * 3, "tlc_init_states": r.coverage.get("Init", (0, 0))[0]}
-    if len(fam) * 3 != r.coverage.get("Init", (0, 0))[0]:
-        raise Exception("driver family (%d) and MC initial states (%s) differ" % (len(fam) * 3, r.coverage.get("Init")))
+    chk.extra["mc_family"] = {"python": len(fam) * 2, "tlc_init_states": r.coverage.get("Init", (0, 0))[0]}
+    if len(fam) * 2 != r.coverage.get("Init", (0, 0))[0]:      # the MC uses N in 1..2 (with distribution-change histories)
+        raise Exception("driver family (%d) and MC initial states (%s) differ" % (len(fam) * 2, r.coverage.get("Init")))
     rng = _r.Random(chk.seed)
     traces, dists = [], []
     und = 0
@@ -166,6 +191,14 @@ def run(chk):
             for N in (1, 2):
                 dists.append(dist_trace({"keys": ks, "wts": wts, "sizes": sizes, "N": N,
                                          "scale": ["int", "norm", "unnorm"][(idx + N) % 3]}))
+    # histories: the same law must hold for a sample taken after the distribution of the object was replaced
+    for how in ("setter", "inplace", "empirical"):
+        for wts0, wts1 in (([1, 2, 3], [3, 0, 1]), ([0, 1, 0], [2, 1, 1]), ([4, 1, 0], [0, 1, 4])):
+            pre = {"keys": KS[1], "wts": wts0, "how": how, "N": 4}
+            dists.append(dist_trace({"keys": KS[1], "wts": wts1, "sizes": [2], "N": 2, "scale": "norm", "pre": pre}))
+            for N in (1, 3):
+                for tr, _w in leaves({"keys": KS[1], "wts": wts1, "sizes": [3], "N": N, "scale": "norm", "pre": pre}, max_leaves=40):
+                    traces.append(tr); chk.rng_leaves += 1
     for wts in ([1, 2, 3], [5, 1, 1], [2, 2, 3], [1, 0, 6]):
         dists.append(dist_trace({"keys": KS[1], "wts": wts, "sizes": [2], "N": 2, "scale": "norm"}))
         dists.append(dist_trace({"keys": [(0, 3), (1, 1), (4, 0)], "wts": wts, "sizes": [3, 2], "N": 1, "scale": "unnorm"}))
